@@ -37,6 +37,14 @@ thread_local! {
 }
 
 fn main() {
+    // the same stack size as the real binary (cli/src/main.rs runs on a 1 GB thread)
+    let handle = std::thread::Builder::new().stack_size(1024 * 1024 * 1024).spawn(real_main).expect("spawn");
+    if handle.join().is_err() {
+        std::process::exit(101);
+    }
+}
+
+fn real_main() {
     panic::set_hook(Box::new(|info| {
         let loc = info.location().map(|l| format!("{}:{}", l.file(), l.line())).unwrap_or_default();
         LAST_PANIC.with(|l| *l.borrow_mut() = loc);
